@@ -603,6 +603,7 @@ func (c *Ctx) checkThriftStruct(rule, short, typ string) {
 func checkC16(c *Ctx) {
 	c.Explanation = "Decides the structural agreement that round-tripping and size calculation rest on: (O1) for each of the five v2 structs the writer table (id, TType, protocol write method, Go field, wire name), the reader table (id, protocol read method, Go field), the Read switch and the struct tags agree; write and read methods are the dual of the announced TType; required fields are written unconditionally and checked after reading; Write emits struct begin, every field once in id order, field stop, struct end; list fields write len and every element; the generated client writes message begin, the argument struct, message end and flushes, in that order; (O2) each TCalcTransport write method adds exactly the length it was given and reports it as written, GetCount/ResetCount read/zero the counter, and the type implements TRichTransport; (O3) calculateSize is lock -> Write into the calc protocol -> read the count -> reset the count -> unlock and returns that count; (O4) the report-time fields hold maximal placeholders in the template (shared with C12); (O5-O8) the vendored Compact and Binary protocols: per primitive the writer and the reader agree on byte order, width, scratch-slice length, varint and zig-zag width; header functions write and read the same sets of primitive sequences; zig-zag helpers, varint loops and the compact nibble packing use matching forms/constants; the type-code table is inverted by the reader's switch; string/binary payloads reach the transport whole (copies only under a sufficient bound); the buffered read transport replaces its buffer on Write."
 	c.Explanation += " Added later: (O8) strings and byte slices handed out by ReadString / ReadBinary are copies owned by the decoded structure."
+	c.Explanation += " Added by round 9: (O1 write-errors-from-protocol) every non-nil error a generated Write / writeFieldN returns flows from a protocol call or a nested write."
 	c.NotDecided = []string{"decode(encode(x)) == x and byte counts as such", "the vendored protocols beyond the writer/reader agreements of O5-O8 (bool-in-header, compact map header, Skip, chunked string reads)"}
 	for _, t := range []string{"MetricValue", "MetricTag", "Metric", "MetricBatch", "M3EmitMetricBatchV2Args"} {
 		c.checkThriftStruct("O1 writer-reader-table", "m3/thrift/v2", t)
